@@ -38,7 +38,7 @@ def CapsHold (w : World) (cs : Capabilities) : Prop := ∀ c, c ∈ cs → CapHo
 
 /-- the soundness invariant for one expression: a permitted error, or a value of the static type whose truth
 implies the output capabilities -/
-def Sound (w : World) (e : Expr) (τ : CedarType) (c' : Capabilities) : Prop :=
+def TySound (w : World) (e : Expr) (τ : CedarType) (c' : Capabilities) : Prop :=
   (∃ err, w.eval e = .error err ∧ Permitted err) ∨
   (∃ v, w.eval e = .ok v ∧ InstanceOfType v τ ∧ (v = .prim (.bool true) → CapsHold w c'))
 
